@@ -705,6 +705,56 @@ func tableAddSpec(goName, lean, eType, eSchema, exists, retrieve, doAdd, origTyp
 	}
 }
 
+func tableDelSpec(goName, lean, eType, eSchema, retrieve, doDel, origType, kindNo string, withKeyCheck bool, extra map[string]string) fnSpec {
+	sp := fnSpec{
+		file: "rib/rib.go", goName: goName, recvType: "*RIBHolder", callAs: "niR." + goName + "§", leanName: lean, joins: true,
+		params: []param{{goName: "e", goType: eType, lean: "e", kd: kPtr(eSchema)}},
+		goRets: "bool, " + origType + ", error", rets: []string{"bool", "ptr:Unit", "err"},
+		oracleParams: []param{
+			{goName: "§rr", lean: "rr", kd: kPtr("Unit")},
+			{goName: "§installed", lean: "installed", kd: kPtr("Unit")},
+			{goName: "§keyErr", lean: "keyErr", kd: kind{k: "status"}},
+			{goName: "§checkFn", lean: "checkFn", kd: kPtr("Unit")},
+			{goName: "§checkOk", lean: "checkOk", kd: kBool},
+			{goName: "§checkErr", lean: "checkErr", kd: kind{k: "status"}},
+			{goName: "§hook", lean: "hook", kd: kPtr("Unit")},
+			{goName: "§name", lean: "name", kd: kStr},
+			{goName: "§now", lean: "now", kd: kInt},
+			{goName: "§isUint", lean: "isUint", kd: kBool},
+		},
+		oracles: map[string]oracle{
+			"r." + retrieve:              {results: []string{"§installed"}},
+			"validKey":                   {results: []string{"§keyErr"}},
+			"r.checkFn":                  {results: []string{"§checkOk", "§checkErr"}},
+			"r." + doDel:                 {results: []string{}, effect: "tableDel:" + kindNo, args: []int{}},
+			"r.postChangeHook":           {results: []string{}, effect: "postHookDel", args: []int{0, 2, 3}},
+			"unixTS":                     {results: []string{"§now"}},
+			"*.GetOrCreateIpv4Entry":     {results: []string{}},
+			"*.GetOrCreateIpv6Entry":     {results: []string{}},
+			"*.GetOrCreateLabelEntry":    {results: []string{}},
+			"*.GetOrCreateNextHopGroup":  {results: []string{}},
+			"*.GetOrCreateNextHop":       {results: []string{}},
+		},
+		subst:     map[string]string{"r.r": "§rr", "r.checkFn": "§checkFn", "r.postChangeHook": "§hook", "r.name": "§name"},
+		effects:   true,
+		typeMap:   map[string]string{"installed": "Unit", "aft.RIB": "KeyRIB"},
+		extConsts: map[string]string{"constants.Delete": "2"},
+	}
+	for k, v := range extra {
+		sp.subst[k] = v
+	}
+	return sp
+}
+
+var ribTableDelSpecs = []fnSpec{
+	tableDelSpec("DeleteIPv4", "deleteIPv4", "*aftpb.Afts_Ipv4EntryKey", "IPv4EntryC", "retrieveIPv4", "doDeleteIPv4", "*aft.Afts_Ipv4Entry", "4", true, nil),
+	tableDelSpec("DeleteIPv6", "deleteIPv6", "*aftpb.Afts_Ipv6EntryKey", "IPv6EntryC", "retrieveIPv6", "doDeleteIPv6", "*aft.Afts_Ipv6Entry", "6", true, nil),
+	tableDelSpec("DeleteMPLS", "deleteMPLS", "*aftpb.Afts_LabelEntryKey", "LabelEntryC", "retrieveMPLS", "doDeleteMPLS", "*aft.Afts_LabelEntry", "1", true,
+		map[string]string{"e.GetLabel().(*aftpb.Afts_LabelEntryKey_LabelUint64)": "§isUint"}),
+	tableDelSpec("DeleteNextHopGroup", "deleteNextHopGroup", "*aftpb.Afts_NextHopGroupKey", "NHGEntryC", "retrieveNHG", "doDeleteNHG", "*aft.Afts_NextHopGroup", "2", false, nil),
+	tableDelSpec("DeleteNextHop", "deleteNextHop", "*aftpb.Afts_NextHopKey", "NHEntryC", "retrieveNH", "doDeleteNH", "*aft.Afts_NextHop", "3", false, nil),
+}
+
 var ribTableSpecs = []fnSpec{
 	tableAddSpec("AddIPv4", "addIPv4", "*aftpb.Afts_Ipv4EntryKey", "IPv4EntryC", "ipv4Exists", "retrieveIPv4", "doAddIPv4", "*aft.Afts_Ipv4Entry", "4"),
 	tableAddSpec("AddIPv6", "addIPv6", "*aftpb.Afts_Ipv6EntryKey", "IPv6EntryC", "ipv6Exists", "retrieveIPv6", "doAddIPv6", "*aft.Afts_Ipv6Entry", "6"),
@@ -715,6 +765,7 @@ var ribTableSpecs = []fnSpec{
 
 func init() {
 	specs = append(specs, ribTableSpecs...)
+	specs = append(specs, ribTableDelSpecs...)
 	specs = append(specs, ribRefSpecs...)
 	specs = append(specs, ribDelSpec)
 	specs = append(specs, clientSpecs...)
